@@ -161,3 +161,11 @@ VARIANTS += [
       "            log_h(process, h, -instance.tour_length_lower_bound)",
       "fire", "D6.6", "seed C06-h-table-logged-with-offset"),
 ]
+
+VARIANTS += [
+    V("ea-delta-in-32-bit-local", "moptipyapps/tsp/ea1p1_revn.py",
+      "            boundscheck=False)\ndef rev_if_not_worse",
+      "            boundscheck=False, locals={\"dy\": numba.int32})\n"
+      "def rev_if_not_worse", "fire", "D6.7",
+      "seed C06-ea-delta-in-32-bit-local"),
+]
